@@ -234,6 +234,23 @@ func (g *replayGen) lit(v Value, t types.Type) string {
 		if x.cell == nil {
 			return "nil"
 		}
+		if sa, ok := g.st.store[x.cell].(*SymArr); ok {
+			lf, ok := g.evalTerm(x.len)
+			l := int(lf)
+			if !ok || l < 0 || l > 256 {
+				g.fail = "symbolic slice length not reconstructible"
+				return "nil"
+			}
+			var parts []string
+			for i := 0; i < l; i++ {
+				parts = append(parts, g.symElemLit(sa.elem, sa.name, float64(i)))
+			}
+			ts := "[]" + g.typeStr(x.elem)
+			if x.named != nil {
+				ts = g.typeStr(x.named)
+			}
+			return ts + "{" + strings.Join(parts, ", ") + "}"
+		}
 		if l, ok := concreteInt(x.len); ok {
 			if arr, ok := g.st.store[x.cell].(*Tuple); ok {
 				off, _ := concreteInt(x.off)
@@ -246,6 +263,40 @@ func (g *replayGen) lit(v Value, t types.Type) string {
 		}
 	}
 	g.fail = "input of kind " + fmt.Sprintf("%T", v) + " cannot be reconstructed"
+	return "nil"
+}
+
+// symElemLit reconstructs element idx of a symbolic array from the recorded
+// (Ackermannized) select applications and the model.
+func (g *replayGen) symElemLit(t types.Type, name string, idx float64) string {
+	switch u := t.Underlying().(type) {
+	case *types.Basic:
+		val := "0"
+		for _, ap := range g.o.apps {
+			if ap.fn == "sel_"+name && len(ap.args) == 1 {
+				if iv, ok := g.evalTerm(ap.args[0]); ok && iv == idx {
+					val = g.termLit(ap.res)
+				}
+			}
+		}
+		if _, named := t.(*types.Named); named {
+			return g.typeStr(t) + "(" + val + ")"
+		}
+		return val
+	case *types.Struct:
+		var parts []string
+		for i := 0; i < u.NumFields(); i++ {
+			parts = append(parts, g.symElemLit(u.Field(i).Type(), name+"."+u.Field(i).Name(), idx))
+		}
+		return g.typeStr(t) + "{" + strings.Join(parts, ", ") + "}"
+	case *types.Array:
+		var parts []string
+		for i := 0; i < int(u.Len()); i++ {
+			parts = append(parts, g.symElemLit(u.Elem(), fmt.Sprintf("%s.%d", name, i), idx))
+		}
+		return g.typeStr(t) + "{" + strings.Join(parts, ", ") + "}"
+	}
+	g.fail = "unsupported symbolic element type"
 	return "nil"
 }
 
@@ -526,8 +577,8 @@ var _ = v3.Vec{}
 func replayOnRealCode(e *Engine, o *Obligation) map[string]interface{} {
 	rec := map[string]interface{}{"reproduced": false}
 	ct := o.contract
-	if ct == nil || ct.fn == nil || ct.lemma {
-		rec["reason"] = "obligation is not attached to a function contract (lemma / table / frame obligation)"
+	if ct == nil || (ct.fn == nil && !ct.lemma) {
+		rec["reason"] = "obligation is not attached to a function contract (table / frame obligation)"
 		return rec
 	}
 	if !strings.Contains(o.name, "/post.") {
@@ -542,9 +593,12 @@ func replayOnRealCode(e *Engine, o *Obligation) map[string]interface{} {
 		model = r2.model
 	}
 	fn := ct.fn
-	pkg := fn.Package()
-	if pkg == nil && fn.Parent() != nil {
-		pkg = fn.Parent().Package()
+	pkg := e.x.pkgByNm[ct.pkg]
+	if fn != nil {
+		pkg = fn.Package()
+		if pkg == nil && fn.Parent() != nil {
+			pkg = fn.Parent().Package()
+		}
 	}
 	g := &replayGen{x: e.x, ct: ct, model: model, pkg: pkg.Pkg, st: o.entry, helper: map[string]bool{}, o: o}
 	var body strings.Builder
@@ -554,13 +608,15 @@ func replayOnRealCode(e *Engine, o *Obligation) map[string]interface{} {
 		names = append(names, n)
 	}
 	sort.Strings(names)
-	isParent := fn.Parent() != nil
+	isParent := fn != nil && fn.Parent() != nil
 	for _, n := range names {
 		v := o.inputs[n]
 		var t types.Type
-		for _, p := range fn.Params {
-			if p.Name() == n {
-				t = p.Type()
+		if fn != nil {
+			for _, p := range fn.Params {
+				if p.Name() == n {
+					t = p.Type()
+				}
 			}
 		}
 		fmt.Fprintf(&body, "\t%s := %s\n\t_ = %s\n", n, g.lit(v, t), n)
@@ -568,7 +624,10 @@ func replayOnRealCode(e *Engine, o *Obligation) map[string]interface{} {
 	// the call
 	var call string
 	var args []string
-	if isParent {
+	nres := 0
+	if fn == nil {
+		// lemma: no call; the clause itself runs the real code
+	} else if isParent {
 		par := fn.Parent()
 		var pa []string
 		for _, p := range par.Params {
@@ -592,11 +651,14 @@ func replayOnRealCode(e *Engine, o *Obligation) map[string]interface{} {
 		}
 		call = fn.Name() + "(" + strings.Join(args, ", ") + ")"
 	}
-	nres := fn.Signature.Results().Len()
-	switch nres {
-	case 0:
+	if fn != nil {
+		nres = fn.Signature.Results().Len()
+	}
+	switch {
+	case fn == nil:
+	case nres == 0:
 		fmt.Fprintf(&body, "\t%s\n", call)
-	case 1:
+	case nres == 1:
 		fmt.Fprintf(&body, "\tr := %s\n\t_ = r\n", call)
 	default:
 		var rs []string
